@@ -17,6 +17,9 @@ RULE = ("gen_rnd_board under a recording proxy of the `random` module for sample
         "or a refused parameter set.")
 
 
+FIRST = {}
+
+
 def call_board(seed, L, W, pl, m, fd, force_random=None):
     import random as real_random
     rg = repo("roberta_generator")
@@ -85,6 +88,8 @@ def check_board(ctx, params, model=None, force_random=None, tag=""):
     r = call_board(*params, force_random=force_random)
     ctx.case({"seed": seed, "length": L, "width": W, "prob_loose": pl, "max_reward": m, "force_down": fd, "tag": tag}, L * W >= 2)
     judge_board(ctx, params, r)
+    if force_random is None and r["outcome"] == "ok":
+        FIRST.setdefault(tuple(params), repr(r["board"]))
     if force_random is None:
         r2 = call_board(*params)
         if r2.get("board") != r.get("board"):
@@ -244,9 +249,17 @@ def run(ctx, model=None):
         for pos in rng.sample(range(8), 2):
             vals[pos] = rng.choice(INTS if pos in (0, 1, 2, 7) else PROBS)
         check_params(ctx, vals, model)
+    # call-order independence: boards recorded at the beginning must come out the same again after
+    # all the other calls of this run (module-level state leaking between calls)
+    for params, board in list(FIRST.items())[:40 if ctx.quick() else 400]:
+        r = call_board(*params)
+        if r.get("board") is not None and repr(r["board"]) != board:
+            seed, L, W, pl, m, fd = params
+            ctx.violation("reproducible-after-other-calls", {"seed": seed, "length": L, "width": W, "prob_loose": pl,
+                                                             "max_reward": m, "force_down": fd}, {"first": board[:200], "again": repr(r["board"])[:200]})
+            break
     regen_committed(ctx)
-    if not ctx.quick():
-        fresh_interpreters(ctx, rng)
+    fresh_interpreters(ctx, rng, 2 if ctx.quick() else 6)
 
 
 def regen_committed(ctx):
@@ -280,18 +293,19 @@ def regen_committed(ctx):
     ctx.count("committed_inputs_regenerated", done)
 
 
-def fresh_interpreters(ctx, rng):
+def fresh_interpreters(ctx, rng, n=4):
     import tempfile
     import shutil
-    for k in range(4):
+    for k in range(n):
         argv = ["-s", str(rng.randrange(1000)), "-w", "3", "-l", "4"] + (["-f"] if k % 2 else [])
         outs = []
         for rep in range(2):
+            hashseed = str(1 + 7 * rep + k)          # different string-hash seeds: set/dict order must not matter
             d = tempfile.mkdtemp(prefix="crv_")
             os.mkdir(os.path.join(d, "inputs"))
             try:
                 subprocess.run([sys.executable, os.path.join(REPO, "roberta_generator.py")] + argv, cwd=d,
-                               capture_output=True, timeout=120, env=dict(os.environ, PYTHONPATH=REPO, PYTHONDONTWRITEBYTECODE="1"))
+                               capture_output=True, timeout=120, env=dict(os.environ, PYTHONPATH=REPO, PYTHONDONTWRITEBYTECODE="1", PYTHONHASHSEED=hashseed))
                 fs = sorted(os.listdir(os.path.join(d, "inputs")))
                 outs.append((fs, [open(os.path.join(d, "inputs", f)).read() for f in fs]))
             finally:
